@@ -133,7 +133,11 @@ class StarRocksGenerator(MySQLGenerator):
         ),
         exp.TimeStrToDate: rename_func("TO_DATE"),
         exp.UnixToStr: lambda self, e: self.func("FROM_UNIXTIME", e.this, self.format_time(e)),
-        exp.UnixToTime: rename_func("FROM_UNIXTIME"),
+        exp.UnixToTime: lambda self, e: (
+            self.func("FROM_UNIXTIME", e.this, self.format_time(e))
+            if e.args.get("format")
+            else rename_func("FROM_UNIXTIME")(self, e)
+        ),
         exp.VarMap: lambda self, e: var_map_sql(self, e, "MAP"),
     }
 
